@@ -31,7 +31,7 @@ def obligations(tier):
         JOB("timestamp_property_clean", M, "job_property_clean", 600, functions=["stix2.properties.TimestampProperty.clean"] + F[:2], stubs=STUB_NOTES,
             bounds="6 property settings x (plain datetime or STIXdatetime carrying any of 6 other settings) x naive/UTC-aware; all fields symbolic"),
         CH("nonzero_offsets_enumerated", "props.h_C15", "offsets", 300, mode="E1s", functions=F[:2],
-           bounds="7 UTC offsets (-12:00..+14:00 incl. +05:45, -05:30) x 8 instants (day/year rollover, leap day, year 999/1/9999) x 6 settings x 3 tz kinds; "
+           bounds="7 UTC offsets (-12:00..+14:00 incl. +05:45, -05:30), each also with 5 sub-second / half-minute additions, x 8 instants (day/year rollover, leap day, year 999/1/9999) x 6 settings x 3 tz kinds; "
                   "independent calendar arithmetic (days-from-civil); enumeration, the symbolic model does not cover C astimezone"),
         CH("ambiguous_local_times", "props.h_C15", "fold_inputs", 300, mode="E1s", functions=["stix2.utils.STIXdatetime.__new__", "stix2.utils.parse_into_datetime",
            "stix2.utils.format_datetime", "stix2.properties.TimestampProperty.clean"],
